@@ -2,6 +2,7 @@
 //! case against the real crate and prints its canonicalised outcome.
 pub mod consts;
 pub mod crc;
+pub mod de;
 pub mod ser;
 
 pub use consts::dump_constants;
@@ -10,6 +11,7 @@ pub fn generate(stream: &str, seed: u64, n: usize, emit: &mut dyn FnMut(String))
 	match stream {
 		"ser" | "ser-valid" | "ser-mut" | "ser-sink" => ser::generate(stream, seed, n, emit),
 		"crc" => crc::generate(seed, n, emit),
+		s if s.starts_with("de") => de::generate(stream, seed, n, emit),
 		_ => panic!("unknown stream {stream}"),
 	}
 }
@@ -20,6 +22,7 @@ pub fn run_line(line: &str) -> String {
 		"" => Ok(String::new()),
 		"ser" => ser::run(line),
 		"crc" => crc::run(line),
+		"de" => de::run(line),
 		_ => Err(format!("unknown stream {cmd}")),
 	});
 	match r {
